@@ -174,15 +174,17 @@ structure RecvParams where
   seqno : Option Nat
 deriving Repr, DecidableEq
 
-/-- the KID-context and KID checks of `unprotect` (oscore.py:1268-1276): a field that is present
-must equal the recipient's own value; an absent field is not checked -/
-def idsAcceptable (B : Ctx) (u : Unprot) : Bool :=
+/-- the KID-context and KID checks of `unprotect` (oscore.py:1272-1286): a field that is present
+must equal the recipient's own value; an absent KID context is not checked; an absent KID is not
+checked in a response, and makes a request unverifiable (RFC 8613 section 5: 'kid' SHALL be
+present in requests — "No key ID provided in request", the audit-F `fix:`) -/
+def idsAcceptable (B : Ctx) (isResp : Bool) (u : Unprot) : Bool :=
   (match u.kidContext with
    | some c => some c == B.idContext      -- else "Sender ID context does not match"
    | none => true) &&
   (match u.kid with
    | some k => k == B.recipientId         -- else "Sender ID does not match"
-   | none => true)
+   | none => isResp)                      -- else "No key ID provided in request"
 
 /-- which Partial IV and generator id make the nonce, and which request identifiers go into
 the AAD -/
@@ -223,7 +225,7 @@ def recvParams (tagBytes : Nat) (B : Ctx) (rid : Option ReqId) (o : Msg) : Excep
     match uncompress option with
     | none => .error .decodeError
     | some u =>
-      if !idsAcceptable B u then .error .protectionInvalid else
+      if !idsAcceptable B (isResponse o.code) u then .error .protectionInvalid else
       match selectPiv B rid o.code u with
       | .error e => .error e
       | .ok s =>
